@@ -257,7 +257,7 @@ static void op_ksreal(const V &a, V &r) {  // n nout t b nsamples seed alpha_num
     LweKey *kin = new_LweKey(pi), *kout = new_LweKey(po);
     lweKeyGen(kin); lweKeyGen(kout);
     LweKeySwitchKey *ks = new_LweKeySwitchKey(n, t, b, po);
-    lweCreateKeySwitchKey(ks, kin, kout);
+    if (a.size() > 8 && a[8] == 1) lweCreateKeySwitchKey_old(ks, kin, kout); else lweCreateKeySwitchKey(ks, kin, kout);     // optional 9th argument: the _old generator
     std::vector<int32_t> e((size_t) n * t * base); ll h0bad = 0, maxrow = 0;
     for (int i = 0; i < n; i++) for (int j = 0; j < t; j++) for (int h = 0; h < base; h++) {
         LweSample *row = &ks->ks[i][j][h];
